@@ -1,10 +1,12 @@
-"""C08 worker: executes ONE session (= one history of operations) against the real GeophiresXClient /
-geophires_x.__main__ in a fresh process and records what a caller can observe around every operation.
+"""C08 worker: executes sessions (one session = one history of operations = one fresh process) against the real
+GeophiresXClient / geophires_x.__main__ and records what a caller can observe around every operation.
 
-    python -B c08_worker.py job.json out.json      (PYTHONPATH=<repo>/src, PYTHONHASHSEED given by the parent)
+    python -B c08_worker.py jobs.json      (PYTHONPATH=<repo>/src, PYTHONHASHSEED given by the parent)
 
+jobs.json = [job,...]; the packages are imported once, then every job runs in its own forked child (process state
+after import = that of a fresh interpreter), which writes job['out'].
 job = {dirs: [abs dir,...], paths: [abs input path,...], contents: [text,...], cwd: dir index,
-       argv: [token,...], ops: [[kind, ...],...]}
+       argv: [token,...], ops: [[kind, ...],...], tmp: dir, out: file}
 ops:  ["newclient", caching] ["get", ci, p] ["getdict", ci, p, c] ["write", p, c] ["delete", p]
       ["chdir", d] ["setargv", [token,...]] ["cli", p]
 A "getdict" builds GeophiresInputParameters(<dict of content c>): the client library creates its own uuid-named
@@ -20,6 +22,7 @@ import re
 import runpy
 import sys
 import tempfile
+import traceback
 
 MASK = re.compile(r'^(\s*(?:Simulation Date|Simulation Time|Calculation Time)\s*:).*$', re.M)
 
@@ -45,18 +48,15 @@ def digest_files(out_path):
     return rep, js
 
 
-def main(job_path, out_path):
-    job = json.load(open(job_path))
-    logging.disable(logging.CRITICAL)
-    import warnings
-    warnings.simplefilter('ignore')
-    logging.config.fileConfig = lambda *a, **k: None   # the CLI's logging.conf would create a log file inside the source tree
-    from geophires_x_client import GeophiresXClient, GeophiresInputParameters
+def run_session(job):
+    from geophires_x_client import GeophiresXClient, GeophiresInputParameters, GeophiresXResult
     from geophires_x import GEOPHIRESv3
     from pathlib import Path
+    os.environ['TMPDIR'] = job['tmp']
+    tempfile.tempdir = job['tmp']
     src_dir = os.path.realpath(os.path.dirname(GEOPHIRESv3.__file__))
     dirs, paths, contents = job['dirs'], list(job['paths']), job['contents']
-    for d in dirs:
+    for d in dirs + [job['tmp']]:
         os.makedirs(d, exist_ok=True)
 
     def out_of(p):
@@ -95,7 +95,6 @@ def main(job_path, out_path):
         kind = op[0]
         out = ['done']
         sys.stdout = io.StringIO()
-        pre = None
         try:
             if kind == 'cli':   # the harness prepares argv; "before" is taken after that
                 sys.argv = ['u0', paths[op[1]], out_of(op[1])]
@@ -129,7 +128,6 @@ def main(job_path, out_path):
                 except SystemExit as e:
                     if e.code == 0:
                         rep, js = digest_files(out_of(op[1]))
-                        from geophires_x_client import GeophiresXResult
                         out = ['ret', digest_result(GeophiresXResult(out_of(op[1]))), False, rep, js]
                     else:
                         out = ['raised', 'SystemExit', str(e.code)]
@@ -160,9 +158,28 @@ def main(job_path, out_path):
                 if callable(getattr(v, 'cache_info', None)) and getattr(v, '__module__', None) == name:
                     ci = v.cache_info()
                     memo[f'{name}:{getattr(v, "__qualname__", attr)}'] = [ci.hits, ci.misses, ci.currsize, ci.maxsize]
-    json.dump({'obs': obs, 'memo': memo, 'paths': paths, 'hashseed': os.environ.get('PYTHONHASHSEED')},
-              open(out_path, 'w'))
+    return {'obs': obs, 'memo': memo, 'hashseed': os.environ.get('PYTHONHASHSEED')}
+
+
+def main(jobs_path):
+    jobs = json.load(open(jobs_path))
+    logging.disable(logging.CRITICAL)
+    import warnings
+    warnings.simplefilter('ignore')
+    logging.config.fileConfig = lambda *a, **k: None   # the CLI's logging.conf would create a log file inside the source tree
+    import geophires_x_client  # noqa: F401  (import once; every session then runs in its own forked child)
+    for job in jobs:
+        pid = os.fork()
+        if pid == 0:
+            try:
+                res = run_session(job)
+            except BaseException:  # noqa
+                res = {'error': traceback.format_exc()[-2000:]}
+            with open(job['out'], 'w') as fh:
+                json.dump(res, fh)
+            os._exit(0)
+        os.waitpid(pid, 0)
 
 
 if __name__ == '__main__':
-    main(sys.argv[1], sys.argv[2])
+    main(sys.argv[1])
